@@ -307,6 +307,114 @@ def polynomial_ambiguity(pattern, flags: int = 0):
     return None
 
 
+def restart_ambiguity(pattern, flags: int = 0):
+    """Quadratic time of `search` / `finditer` / `sub` (not of `match`): the scan restarts the pattern at every position, and a pattern
+    whose literal start can occur n times while one of its loops, once entered, runs over all the later occurrences before the rest of the
+    pattern fails, costs n restarts of length n. On the automaton of `(?s:.)*P` this is IDA between the implicit scanning loop p0 and a
+    loop q of P -- some word leads p0 -> p0, p0 -> q and q -> q -- with one more condition that makes the difference between
+    `[ \t]+` (harmless: nothing can fail after the loop) and `<meta[^>]+charset=`: after q the pattern still has to consume
+    something (acceptance is not reachable from q without reading a character). Assertions are ignored (over-approximation of the
+    language, i.e. a lookahead after the loop does not count as "something to consume"). Returns a witness or None."""
+    if isinstance(pattern, bytes):
+        pattern = pattern.decode("latin-1")
+    tree = sp.parse(pattern, flags)
+    flags2 = tree.state.flags if hasattr(tree, "state") else flags
+    items = _items(tree)
+    anchored_line = False
+    if items and items[0][0] is sc.AT:
+        at = str(items[0][1])
+        if at in ("AT_BEGINNING_STRING",) or (at == "AT_BEGINNING" and not (flags2 & re.MULTILINE)):
+            return None  # one attempt only: nothing restarts
+        if at in ("AT_BEGINNING", "AT_BEGINNING_LINE"):
+            anchored_line = True
+    nfa = _NFA()
+    start = nfa.new()
+    head = nfa.new()          # the implicit scanning loop: start -eps-> head -ALL-> head -eps-> body
+    nfa.e(start, head)
+    back = nfa.new()
+    nfa.c(head, ALL, back)
+    nfa.e(back, head)
+    body = nfa.new()
+    if anchored_line:
+        # `^` with MULTILINE: an attempt starts at offset 0 or right after a line feed
+        nfa.e(start, body)
+        nl = nfa.new()
+        nfa.e(head, nl)
+        nfa.c(nl, frozenset(["\n"]), body)
+    else:
+        nfa.e(head, body)
+    end = _build(nfa, tree, body, flags2)
+    E = nfa.chars
+    n = len(E)
+    if n > MAX_TRIPLE_EDGES:
+        raise Undecided("pattern too large for the triple product")
+    by_src: dict[int, list[int]] = {}
+    for j, (a, _cs, _b) in enumerate(E):
+        by_src.setdefault(a, []).append(j)
+    succ: list[dict[int, int]] = []
+    accepting_after: list[bool] = []
+    for (_a, _cs, b) in E:
+        cnt = _eps_paths(nfa, b)
+        accepting_after.append(end in cnt)
+        d: dict[int, int] = {}
+        for s_, k in cnt.items():
+            for j in by_src.get(s_, ()):
+                d[j] = min(2, d.get(j, 0) + k)
+        succ.append(d)
+    p0 = 0  # the edge of the scanning loop was created first
+    reach = [set(succ[i]) for i in range(n)]
+    changed = True
+    while changed:
+        changed = False
+        for i in range(n):
+            add = set()
+            for j in reach[i]:
+                add |= reach[j]
+            if not add <= reach[i]:
+                reach[i] |= add
+                changed = True
+    loops = [i for i in range(n) if i in reach[i] and i != p0]
+    # the loop q belongs to must be unable to end in acceptance: if the match can succeed at the end of some iteration, a long run of
+    # iterations is a (long) match, not a failure that is retried from every offset
+    def loop_of(q):
+        return [e for e in range(n) if e == q or (e in reach[q] and q in reach[e])]
+
+    cands = [q for q in loops if q in reach[p0] and not any(accepting_after[e] for e in loop_of(q))]
+    if not cands:
+        return None
+    starts = [(p0, p0, q) for q in cands]
+    nodes: dict = {}
+    work = list(starts)
+    while work:
+        t = work.pop()
+        if t in nodes:
+            continue
+        a, b, c = t
+        out = []
+        for f1 in succ[a]:
+            for f2 in succ[b]:
+                cs12 = E[f1][1] & E[f2][1]
+                if not cs12:
+                    continue
+                for f3 in succ[c]:
+                    if cs12 & E[f3][1]:
+                        out.append((f1, f2, f3))
+        nodes[t] = out
+        work.extend(o for o in out if o not in nodes)
+        if len(nodes) > 200000:
+            raise Undecided("triple product too large")
+    for (_p, _p2, q) in starts:
+        tgt = (p0, q, q)
+        if tgt in nodes:
+            nodes[tgt] = nodes[tgt] + [(p0, p0, q)]
+    comp = _sccs(nodes)
+    for (_p, _p2, q) in starts:
+        tgt = (p0, q, q)
+        if tgt in comp and comp[tgt] == comp[(p0, p0, q)]:
+            return "a repeat of the pattern can run over later occurrences of the pattern's own start and the pattern can still fail behind it: every one of n restarts of the scan reads the rest of the input (quadratic)"
+    return None
+
+
 def exponential_ambiguity(pattern, flags: int = 0):
     """None when the pattern has no exponentially ambiguous loop; otherwise a short witness description."""
     E, succ = _edges_and_succ(pattern, flags)
